@@ -18,6 +18,19 @@ import (
 // ---------------------------------------------------------------------------
 // wsflate.Writer.Reset
 
+// presetDict is the preset dictionary of the "dict" codec kinds
+// (flate.NewWriterDict / flate.NewReaderDict); dictPayload builds payloads that
+// back-reference it.
+var presetDict = []byte("{\"type\":\"subscribe\",\"channel\":\"ticker\",\"product_ids\":[\"BTC-USD\",\"ETH-USD\"],\"sequence\":0000000000}")
+
+func dictPayload(n int, fill byte) []byte {
+	p := make([]byte, 0, n+len(presetDict))
+	for i := int(fill) % len(presetDict); len(p) < n; i = 0 {
+		p = append(p, presetDict[i:]...)
+	}
+	return p[:n]
+}
+
 // compCtl is the harness' handle on the compressors a wsflate.Writer builds.
 type compCtl struct {
 	// kind = base "/" capabilities: base flate (compress/flate) or raw
@@ -96,7 +109,8 @@ func (n resetOnly) Write(p []byte) (int, error) { return n.c.Write(p) }
 func (n resetOnly) Flush() error                { return n.c.Flush() }
 func (n resetOnly) Reset(w io.Writer)           { n.c.Reset(w) }
 
-var compKinds = []string{"flate/close+reset", "flate/close", "flate/reset", "flate/none", "raw/close+reset", "raw/close", "raw/reset", "raw/none"}
+var compKinds = []string{"flate/close+reset", "flate/close", "flate/reset", "flate/none", "raw/close+reset", "raw/close", "raw/reset", "raw/none",
+	"flatedict/close+reset", "flatedict/close", "flatedict/reset", "flatedict/none"}
 
 // noReset hides every method but the Compressor interface, so that
 // wsflate.Writer.Reset has to re-construct the compressor.
@@ -108,7 +122,10 @@ func (n noReset) Flush() error                { return n.c.Flush() }
 func (ctl *compCtl) ctor(w io.Writer) wsflate.Compressor {
 	ctl.built++
 	var c fullComp
-	if strings.HasPrefix(ctl.kind, "flate") {
+	if strings.HasPrefix(ctl.kind, "flatedict") {
+		fw, _ := flate.NewWriterDict(w, 6, presetDict)
+		c = &flateComp{ctl: ctl, fw: fw, dst: w}
+	} else if strings.HasPrefix(ctl.kind, "flate") {
 		fw, _ := flate.NewWriter(w, 6)
 		c = &flateComp{ctl: ctl, fw: fw, dst: w}
 	} else {
@@ -183,7 +200,11 @@ func runFw(w *wsflate.Writer, ctl *compCtl, ops []fwOp) []fwRes {
 		var err error
 		switch o.Kind {
 		case "write":
-			n, err = w.Write(payloadBytes(o.Len, o.Fill))
+			if strings.HasPrefix(ctl.kind, "flatedict") {
+				n, err = w.Write(dictPayload(o.Len, o.Fill))
+			} else {
+				n, err = w.Write(payloadBytes(o.Len, o.Fill))
+			}
 		case "flush":
 			ctl.tail, ctl.extra = []byte(o.Tail), []byte(o.Extra)
 			err = w.Flush()
@@ -294,9 +315,9 @@ func lenClass(n int) int {
 
 // deflate produces a permessage-deflate payload with compress/flate directly:
 // a sync-flushed stream without its trailing 00 00 ff ff.
-func deflate(data []byte, level int) []byte {
+func deflate(data []byte, level int, dict []byte) []byte {
 	var b bytes.Buffer
-	fw, _ := flate.NewWriter(&b, level)
+	fw, _ := flate.NewWriterDict(&b, level, dict)
 	fw.Write(data)
 	fw.Flush()
 	out := b.Bytes()
@@ -307,13 +328,14 @@ func deflate(data []byte, level int) []byte {
 type resetDecomp struct {
 	rc     io.ReadCloser
 	resets *int
+	dict   []byte
 }
 
 func (d *resetDecomp) Read(p []byte) (int, error) { return d.rc.Read(p) }
 func (d *resetDecomp) Close() error               { return d.rc.Close() }
 func (d *resetDecomp) Reset(r io.Reader) {
 	*d.resets++
-	d.rc.(flate.Resetter).Reset(r, nil)
+	d.rc.(flate.Resetter).Reset(r, d.dict)
 }
 
 // plainDecomp offers Read only: no Close, no Reset.
@@ -333,16 +355,20 @@ type frSource struct {
 	plain      []byte
 }
 
-func drawFrSource(t *rapid.T, label string, validPct int) frSource {
+func drawFrSource(t *rapid.T, label string, validPct int, dict []byte) frSource {
 	s := frSource{Kind: "valid"}
 	s.Len = rapid.SampledFrom([]int{0, 1, 5, 60, 700, 9000}).Draw(t, label+".len")
 	s.Fill = rapid.Byte().Draw(t, label+".fill")
 	s.plain = payloadBytes(s.Len, s.Fill)
-	if rapid.Bool().Draw(t, label+".random") {
+	if dict != nil {
+		// payloads that back-reference the preset dictionary
+		s.Len = rapid.SampledFrom([]int{20, 60, 108, 109, 300, 5000}).Draw(t, label+".dictlen")
+		s.plain = dictPayload(s.Len, s.Fill)
+	} else if rapid.Bool().Draw(t, label+".random") {
 		s.plain = rapid.SliceOfN(rapid.Byte(), 0, 300).Draw(t, label+".bytes")
 		s.Len = len(s.plain)
 	}
-	s.wire = deflate(s.plain, rapid.SampledFrom([]int{0, 1, 6, 9}).Draw(t, label+".level"))
+	s.wire = deflate(s.plain, rapid.SampledFrom([]int{0, 1, 6, 9}).Draw(t, label+".level"), dict)
 	if rapid.IntRange(0, 99).Draw(t, label+".valid?") >= validPct {
 		switch rapid.IntRange(0, 2).Draw(t, label+".bad") {
 		case 0:
@@ -449,9 +475,13 @@ func drawFrOps(t *rapid.T, label string, drain bool) []frOp {
 // reading to the end, after corrupt input, after Close) against a new Reader.
 func TestFlateReaderReset(t *testing.T) {
 	hx.Check(t, 4, func(t *rapid.T) {
-		kind := rapid.SampledFrom([]string{"flate", "flate-resetter", "plain"}).Draw(t, "decompressor")
-		src1 := drawFrSource(t, "src1", 50)
-		src2 := drawFrSource(t, "src2", 80)
+		kind := rapid.SampledFrom([]string{"flate", "flate-resetter", "plain", "flate-dict", "flate-dict", "flate-dict-resetter", "plain-dict"}).Draw(t, "decompressor")
+		var dict []byte
+		if strings.Contains(kind, "dict") {
+			dict = presetDict
+		}
+		src1 := drawFrSource(t, "src1", 50, dict)
+		src2 := drawFrSource(t, "src2", 80, dict)
 		h1 := drawFrOps(t, "h1", rapid.Bool().Draw(t, "h1.drain"))
 		h2 := drawFrOps(t, "h2", true)
 		hx.Eval()
@@ -459,13 +489,14 @@ func TestFlateReaderReset(t *testing.T) {
 		mk := func() (func(io.Reader) wsflate.Decompressor, *int) {
 			resets := new(int)
 			return func(r io.Reader) wsflate.Decompressor {
+				// the ctor is part of the configuration: here it carries the preset dictionary
 				switch kind {
-				case "flate-resetter":
-					return &resetDecomp{rc: flate.NewReader(r), resets: resets}
-				case "plain":
-					return plainDecomp{flate.NewReader(r)}
+				case "flate-resetter", "flate-dict-resetter":
+					return &resetDecomp{rc: flate.NewReaderDict(r, dict), resets: resets, dict: dict}
+				case "plain", "plain-dict":
+					return plainDecomp{flate.NewReaderDict(r, dict)}
 				}
-				return flate.NewReader(r)
+				return flate.NewReaderDict(r, dict)
 			}, resets
 		}
 		ctorA, resetsA := mk()
